@@ -217,7 +217,7 @@ def install():
         warnings.simplefilter("ignore")
         pvl = importlib.import_module("pvl")
         mods = {}
-        for m in PVL_MODULES:
+        for m in PVL_MODULES[:-2]:
             try:
                 mods[m] = importlib.import_module("pvl." + m)
             except ImportError:
@@ -278,6 +278,17 @@ def install():
     for m in ("token", "lexer", "parser", "encoder"):
         if hasattr(mods[m], "Token"):
             mods[m].Token = Token
+    # the command-line tools create module-level decoder/encoder instances at import: they must see
+    # the proxy-aware builtins (real_cls = float is captured when a decoder is constructed)
+    with warnings.catch_warnings():
+        warnings.simplefilter("ignore")
+        for m in PVL_MODULES[-2:]:
+            try:
+                mods[m] = importlib.import_module("pvl." + m)
+                for g, fn in _GLOBALS.items():
+                    setattr(mods[m], g, fn)
+            except ImportError:
+                pass
     with warnings.catch_warnings():
         warnings.simplefilter("ignore")
         ref = importlib.import_module("pvl_ref")
